@@ -258,4 +258,97 @@ theorem depSetsCreate_closure (s : Ctx) (k t : MKey) (m : Mod) (hm : s.allFind k
       rw [hcr] at h
       exact ⟨ds, by simp, h.1, h.2⟩
 
+/-! ### marking: "if there is a module to compile, all the implemented modules of the dep set need to be recompiled" -/
+
+def Ctx.flagged (s : Ctx) (k : MKey) : Bool := ((s.find k).map (·.toCompile)).getD false
+def Ctx.implAt (s : Ctx) (k : MKey) : Bool := ((s.find k).map (·.implemented)).getD false
+
+theorem find?_map_key (g : Mod → Mod) (hg : ∀ m, (g m).key = m.key) (k : MKey) : ∀ l : List Mod,
+    (l.map g).find? (fun m => m.key == k) = (l.find? (fun m => m.key == k)).map g := by
+  intro l
+  induction l with
+  | nil => rfl
+  | cons a r ih =>
+    simp only [List.map_cons, List.find?_cons, hg]
+    split
+    · rfl
+    · exact ih
+
+/-- one `markDepSet` step, seen through the lookup of a module -/
+theorem markDepSet_find (s : Ctx) (ds : List MKey) (x : MKey) :
+    (markDepSet s ds).find x = (s.find x).map fun m =>
+      if ds.any (fun k => s.flagged k) && (ds.contains m.key && m.implemented) then { m with toCompile := true } else m := by
+  unfold markDepSet
+  have hflag : (ds.any fun k => ((s.find k).map (·.toCompile)).getD false) = ds.any (fun k => s.flagged k) := rfl
+  rw [hflag]
+  cases hany : ds.any (fun k => s.flagged k) with
+  | true =>
+    simp only [if_true, Bool.true_and]
+    unfold Ctx.find
+    exact find?_map_key _ (fun m => by split <;> rfl) x _
+  | false =>
+    simp only [Bool.false_eq_true, if_false, Bool.false_and]
+    cases s.find x <;> rfl
+
+theorem markDepSet_flagged_mono (s : Ctx) (ds : List MKey) (x : MKey) (h : s.flagged x = true) : (markDepSet s ds).flagged x = true := by
+  unfold Ctx.flagged at h ⊢
+  rw [markDepSet_find]
+  cases hf : s.find x with
+  | none => rw [hf] at h; cases h
+  | some m =>
+    rw [hf] at h
+    simp only [Option.map_some, Option.getD_some] at h ⊢
+    split
+    · rfl
+    · exact h
+
+theorem markDepSet_implAt (s : Ctx) (ds : List MKey) (x : MKey) : (markDepSet s ds).implAt x = s.implAt x := by
+  unfold Ctx.implAt
+  rw [markDepSet_find]
+  cases s.find x with
+  | none => rfl
+  | some m => simp only [Option.map_some, Option.getD_some]; split <;> rfl
+
+theorem markDepSet_hit (s : Ctx) (ds : List MKey) (x : MKey) (hany : ds.any (fun k => s.flagged k) = true) (hx : x ∈ ds)
+    (hi : s.implAt x = true) : (markDepSet s ds).flagged x = true := by
+  unfold Ctx.flagged
+  unfold Ctx.implAt at hi
+  rw [markDepSet_find]
+  cases hf : s.find x with
+  | none => rw [hf] at hi; cases hi
+  | some m =>
+    rw [hf] at hi
+    simp only [Option.map_some, Option.getD_some] at hi ⊢
+    have hk : m.key = x := by
+      unfold Ctx.find at hf
+      have := List.find?_some hf
+      simpa using this
+    have hc : m.key ∈ ds := by rw [hk]; exact hx
+    simp [hany, hc, hi]
+
+theorem foldl_markDepSet_mono (x : MKey) : ∀ (dss : List (List MKey)) (s : Ctx), s.flagged x = true →
+    (dss.foldl markDepSet s).flagged x = true := by
+  intro dss
+  induction dss with
+  | nil => intro s h; exact h
+  | cons d r ih => intro s h; exact ih _ (markDepSet_flagged_mono s d x h)
+
+/-- every implemented module of a dependency set that holds a flagged module is flagged after the marking -/
+theorem foldl_markDepSet_flags (ds : List MKey) (x : MKey) (hx : x ∈ ds) : ∀ (dss : List (List MKey)) (s : Ctx), ds ∈ dss →
+    ds.any (fun k => s.flagged k) = true → s.implAt x = true → (dss.foldl markDepSet s).flagged x = true := by
+  intro dss
+  induction dss with
+  | nil => intro s h; cases h
+  | cons d r ih =>
+    intro s hmem hany hi
+    simp only [List.foldl_cons]
+    rcases List.mem_cons.mp hmem with h | h
+    · subst h
+      exact foldl_markDepSet_mono x r _ (markDepSet_hit s ds x hany hx hi)
+    · apply ih _ h
+      · rw [List.any_eq_true] at hany ⊢
+        obtain ⟨k, hk, hfk⟩ := hany
+        exact ⟨k, hk, markDepSet_flagged_mono s d k hfk⟩
+      · rw [markDepSet_implAt]; exact hi
+
 end LyModel.Ctx
